@@ -164,6 +164,23 @@ def extract(repo):
     if la_step < 1 or not mm_ or not la.strip().startswith("i++"):
         raise ValueError("look-ahead loop has an unknown shape")
     sev_missing_trailing = mm_.group(1)
+    # pre-technical-corrigendum encoding (`useTechCor == false`): a redefining attribute has a value of its own, `*`
+    w_ = re.sub(r"\s+", "", ib)
+    pm = re.search(r"if\(!useTechCor\)\{in>>c;in>>ws;if\(c=='\*'\)\{in>>c;\}else\{severe=(SEVERITY_\w+);PrependEntityErrMsg\(\);_error\.GreaterSeverity\(severe\);", w_)
+    if not pm:
+        raise ValueError("pre-technical-corrigendum branch of the read loop changed")
+    sev_pretc_nostar = pm.group(1)
+    dm = re.search(r"if\(\(!\(attributes\[i\]\.aDesc->AttrType\(\)==AttrType_Redefining\)\|\|!useTechCor\)&&!\(\(c==','\)\|\|\(c=='\)'\)\)\)\{PrependEntityErrMsg\(\);.*?"
+                   r"CheckRemainingInput\(in,&_error,\"ENTITY\",\",\)\"\);if\(!in\.good\(\)\)\{return_error\.severity\(\);\}if\(_error\.severity\(\)<=(SEVERITY_\w+)\)\{return_error\.severity\(\);\}\}elseif\(c=='\)'\)", w_)
+    if not dm:
+        raise ValueError("`Delimiter expected after attribute value` branch of the read loop changed")
+    pretc_return_at = dm.group(1)
+    sc = _strip(open(os.path.join(repo, "src/clutils/Str.cc")).read())
+    cb = re.sub(r"\s+", "", _body(sc, "Severity CheckRemainingInput( istream & in, ErrorDescriptor * err,"))
+    gm = re.search(r"if\(IsDelimiter\(delimiterList,c\)\)\{in\.putback\(c\);.*?err->GreaterSeverity\((SEVERITY_\w+)\);\}else\{", cb)
+    if not gm or "charc=in.peek();if(!IsDelimiter(delimiterList,c)){" not in cb:
+        raise ValueError("CheckRemainingInput: recovery branch changed")
+    sev_garbage = gm.group(1)
     m = re.search(r"severe\s*=\s*attributes\[i\]\.Error\(\)\.severity\(\)\s*;\s*if\s*\(\s*severe\s*<=\s*(SEVERITY_\w+)\s*\)\s*\{.*?_error\.GreaterSeverity\(\s*severe\s*\)", ib, re.S)
     if not m:
         raise ValueError("attribute severity merge not found")
@@ -259,6 +276,13 @@ def extract(repo):
     L.append("/-- the look-ahead after an early `)` examines every `lookAheadStep`-th remaining attribute (1 = every one) -/")
     L.append(f"def lookAheadStep : Nat := {la_step}")
     L.append(f"def sevMissingTrailing : Sev := {_sev(sev_missing_trailing)}")
+    L.append("/-- pre-technical-corrigendum encoding (`useTechCor == false`): a redefining attribute reads ONE character; unless it is `*` (then the")
+    L.append("    delimiter is read too) the instance gets this severity and NOTHING more is consumed -/")
+    L.append(f"def sevPreTcNoStar : Sev := {_sev(sev_pretc_nostar)}")
+    L.append("/-- … `CheckRemainingInput( in, &_error, \"ENTITY\", \",)\" )` then skips what is left of the value: this severity if there was anything (the delimiter stays unread) -/")
+    L.append(f"def sevPreTcGarbage : Sev := {_sev(sev_garbage)}")
+    L.append("/-- … and the read is given up when the instance's severity is at or below -/")
+    L.append(f"def preTcGiveUpAt : Sev := {_sev(pretc_return_at)}")
     L.append("/-- `strict` received by the parts of a complex instance -/")
     L.append(f"def complexPartStrict : Option Bool := {strict_arg(part_args, inst_default)}")
     L.append("/-- does `STEPcomplex::STEPread` merge what the parts other than the head report into its result? -/")
